@@ -177,6 +177,9 @@ class Tr(object):
             key = 'stmt:' + ast.unparse(s)
             if key in self.names:      # explicitly whitelisted side-effect-free statement (logging)
                 continue
+            if key in self.calls:      # a whitelisted statement with a modelled effect on the state: handler(env) updates env in place
+                self.calls[key](env)
+                continue
             raise Unsupported('statement %s' % ast.unparse(s)[:100])
         return result(env, None)
 
